@@ -5,7 +5,7 @@ from __future__ import annotations
 import ast
 
 from ..index import ClassInfo, FuncInfo
-from ..nf import NF, Atom, Undecided, app, atoms_of, lift, nf_equal, single_atom, sym
+from ..nf import NF, Atom, Undecided, app, atoms_of, lift, nf_equal, single_atom, subst, sym
 from ..values import NONE, Cond, DictV, ListV, NoneV, Num, ObjV, OpaqueV, StrV, TupleV, valkey
 from .c02 import find_driver_call
 from .common import ABSTRACT_SUMMARIES, N, Pdim, call_method, data_sym, frame_sym, new_executor, norm_src, returns, run, symbolic_hyperparams
@@ -265,7 +265,7 @@ def check_drivers_positional(ctx):
         seen.add(drv.qualname)
         summ = {}
         for f in ctx.P.functions.values():
-            if f.cls is None and len(f.params) == 3 and "alpha" in f.params[1] and "beta" in f.params[2]:
+            if __import__("skverif.rules.c03", fromlist=["is_penaliser"]).is_penaliser(f):
                 summ[f.qualname] = _pen_summary
         try:
             ex, paths = generic_driver_run(ctx, drv, summ, max_paths=4000)
@@ -430,29 +430,28 @@ def check_as_2d(ctx):
         key = f"vector_as_column={as_col}"
         seen = set()
         for p in paths:
-            nd = None
-            facts = {}
+            # the ranks of the operand AS GIVEN that the path facts admit, out of {1, 2, 3 (= three or more)}: tests of
+            # the rank may be spelled ndim == 1, ndim < 2, ndim > 2, ndim >= 3, ... in any order
+            ranks = {1, 2, 3}
             for c, v in p.facts:
-                # tests of the rank of the operand AS GIVEN (not of something derived from it: squeezed, reshaped)
-                if c.t[0] == "cmp" and any(a.kind == "app" and a.args[0] == "ndim" and nf_equal(lift(a.args[1]), sym("x")) for a in atoms_of(c.t[2]).values()):
-                    lin = c.t[2]
-                    a = [x_ for x_ in atoms_of(lin).values() if x_.kind == "app" and x_.args[0] == "ndim" and nf_equal(lift(x_.args[1]), sym("x"))][0]
-                    k = (lin - NF.atom(a)).as_const()
-                    k2 = (lin + NF.atom(a)).as_const()
-                    # c is  (ndim - m) op 0  or  (m - ndim) op 0
-                    if k is not None:
-                        facts[("ndim-", -k, c.t[1])] = v
-                    elif k2 is not None:
-                        facts[("m-ndim", k2, c.t[1])] = v
-            is1 = facts.get(("ndim-", 1, "==0"))
-            if is1 is None and ("ndim-", 1, "!=0") in facts:
-                is1 = not facts[("ndim-", 1, "!=0")]
-            gt2 = None
-            for (form, m_, op), v in facts.items():
-                if form == "m-ndim" and m_ == 2 and op == "<0":
-                    gt2 = v
-                if form == "ndim-" and m_ == 2 and op == "<=0":
-                    gt2 = not v
+                if c.t[0] != "cmp":
+                    continue
+                tops = atoms_of(c.t[2], deep=False)
+                ats = [a_ for a_ in tops.values() if a_.kind == "app" and a_.args[0] == "ndim" and nf_equal(lift(a_.args[1]), sym("x"))]
+                if len(ats) != 1 or len(tops) != 1:
+                    continue
+                keep = set()
+                for r_ in ranks:
+                    val = subst(c.t[2], {ats[0].key: NF.const(r_)}).as_const()
+                    if val is None:
+                        keep.add(r_)
+                        continue
+                    holds_ = {"<0": val < 0, "<=0": val <= 0, "==0": val == 0, "!=0": val != 0}[c.t[1]]
+                    if holds_ == v:
+                        keep.add(r_)
+                ranks = keep
+            is1 = True if ranks == {1} else (False if 1 not in ranks else None)
+            gt2 = True if ranks == {3} else (False if 3 not in ranks else None)
             if is1 is True:
                 seen.add("vector")
                 r = p.value
